@@ -154,7 +154,51 @@ func runC04(r *core.Run) {
 		}
 		cpu := []int{1, 4, 8}[rng.Intn(3)]
 		x := newRelRun(r, cpu, t, u)
-		switch rng.Intn(3) {
+		switch rng.Intn(4) {
+		case 3: // PARTITION BY: several analytic functions over the same partition list, one of them re-ordering the rows
+			sql := "SELECT id, COUNT(*) OVER (PARTITION BY " + kcols + ") AS n, LISTAGG(id, ',') OVER (PARTITION BY " + kcols + " ORDER BY v DESC, id) AS l, SUM(v) OVER (PARTITION BY " + kcols + ") AS s FROM t"
+			if mixed {
+				break
+			}
+			res, _, e := x.query(sql + ";")
+			if e != "" {
+				if !errRep[e] {
+					errRep[e] = true
+					r.Violation("bucket:partition:error:"+e, sql+" fails with "+e, map[string]interface{}{"sql": sql})
+				}
+				break
+			}
+			keys := projectCells(t.Rows, kidx...)
+			vals := []rcell{}
+			for _, row := range t.Rows {
+				vals = append(vals, row[3])
+			}
+			per := make([]map[string]interface{}, len(t.Rows))
+			okShape := len(res) == len(t.Rows)
+			for _, row := range res {
+				id, err := strconv.Atoi(row[0].T)
+				cnt, err2 := strconv.Atoi(row[1].T)
+				if err != nil || err2 != nil || id < 1 || id > len(per) {
+					okShape = false
+					break
+				}
+				s2, hs := half2(row[3])
+				per[id-1] = map[string]interface{}{"cnt": cnt, "hassum": hs, "sum2": s2}
+			}
+			for _, m := range per {
+				if m == nil {
+					okShape = false
+				}
+			}
+			if !okShape {
+				if !errRep["pshape"] {
+					errRep["pshape"] = true
+					r.Violation("bucket:partition:shape", sql+": not one row per input row", map[string]interface{}{"sql": sql})
+				}
+				break
+			}
+			rankStrings(keys)
+			add(sql, "bucket:partition:"+kind, cpu, map[string]interface{}{"kind": "partition", "keys": keys, "vals": vals, "res": per}, t.Rows)
 		case 0: // DISTINCT
 			sql := "SELECT DISTINCT " + kcols + " FROM t"
 			res, _, e := x.query(sql + ";")
